@@ -34,12 +34,15 @@ Theorem C08_instrumented_hook_independent :
 Proof. exact instrumented_hook_independent. Qed.
 Print Assumptions C08_instrumented_hook_independent.
 
-(* the premises are satisfiable: `add` is a construct hook (a generic name is not), and a program with a typed handler
-   meets the guard exactly when both selections agree on the exception hook *)
+(* the premises are satisfiable: `add` is a construct hook (a generic name is not); a program whose handler type is a
+   class name meets the guard for any two selections, one whose handler type is a call only when both selections agree
+   on the exception hook *)
 Example C08_premises_inhabited :
   construct_hook "add" = true /\ construct_hook "runtime_event" = false
-  /\ g8_prog ["add"; "exception"] ["add"; "exception"; "write"]
+  /\ g8_prog ["add"] ["add"; "exception"; "write"]
        {| p_funs := []; p_main := Scons (STry 1 (Scons SPass Snil) (Hcons (Some (EName 2 "E1" NNone)) (Some "e") (Scons SPass Snil) Hnil) Snil Snil) Snil |} = true
+  /\ g8_prog ["add"; "exception"] ["add"; "exception"; "write"]
+       {| p_funs := []; p_main := Scons (STry 1 (Scons SPass Snil) (Hcons (Some (ECall 2 (EName 3 "pick" NNone) Enil)) None (Scons SPass Snil) Hnil) Snil Snil) Snil |} = true
   /\ g8_prog ["add"] ["add"; "exception"]
-       {| p_funs := []; p_main := Scons (STry 1 (Scons SPass Snil) (Hcons (Some (EName 2 "E1" NNone)) (Some "e") (Scons SPass Snil) Hnil) Snil Snil) Snil |} = false.
+       {| p_funs := []; p_main := Scons (STry 1 (Scons SPass Snil) (Hcons (Some (ECall 2 (EName 3 "pick" NNone) Enil)) None (Scons SPass Snil) Hnil) Snil Snil) Snil |} = false.
 Proof. vm_compute. repeat split; reflexivity. Qed.
